@@ -26,7 +26,7 @@ from .C15 import apply_model_ramp, defgrad
 PROP = "C01"
 
 EVIDENCE = {
-    "probes_expected": ["fd-probe", "fd-probe-smooth", "kink-discarded", "settled-incompressible-checked", "symmetry-checked", "cache-transparency-checked", "parallel-knob-checked", "item:MultiPointContact", "item:MultiPointConstraint", "item:SolidBodyPressure", "item:SolidBodyCauchyStress", "item:FormItem", "item:SolidBodyNearlyIncompressible", "history-state-probe"],
+    "probes_expected": ["fd-probe", "fd-probe-smooth", "kink-discarded", "settled-incompressible-checked", "symmetry-checked", "cache-transparency-checked", "call-order-checked", "parallel-knob-checked", "item:MultiPointContact", "item:MultiPointConstraint", "item:SolidBodyPressure", "item:SolidBodyCauchyStress", "item:FormItem", "item:SolidBodyNearlyIncompressible", "history-state-probe"],
     "clauses_sampled_only": ["for stateless items the derivative check at a given state is a pure function of that state; only the states (and the cache / link / multiplier protocol through which K and f reach Newton) are history-generated"],
 }
 
@@ -213,6 +213,52 @@ class C01Monitor(jobsim.Monitor):
                     f"{label} K.d differs from the central difference of fun_items by {err:.3e} (|K d|+|g| = {scale:.3e}, direction {dname}, h={h0:g}, worst row {where}, substep ({c['step']},{c['substep']}) iteration {c['iter']})",
                     site="+".join(sorted({s["type"] + (":" + s["umat"]["name"] if "umat" in s else "") for s in self.doc["items"]})),
                 )
+        # call order: the matrix assembled first on a cold item (incl. the item's own keyword
+        # arguments) is the matrix assembled after the vector ------------------------------------------
+        fk3, items3 = self.make_fork(eng, c, it["x"])
+        for k, spec in enumerate(self.doc["items"]):
+            item = fk3.items[k]
+            if item not in items3 or spec["type"] in ("SolidBodyNearlyIncompressible",):
+                continue
+            kw = {}
+            if spec["type"] == "SolidBodyPressure":
+                # the load value handed over as keyword argument, different from the stored one
+                kw["pressure"] = float(getattr(item.results, "pressure", 0.0) or 0.0) * 1.7 + 0.3
+            fld = item.field
+            if len(fld.fields) == len(fk3.field.fields):
+                fld.link(fk3.field)
+            else:
+                fld.fields[0].values = fk3.field.fields[0].values
+            try:
+                K_first = item.assemble.matrix(field=fld, **kw).toarray()
+                item.assemble.vector(field=fld, **kw)
+                K_second = item.assemble.matrix(field=fld, **kw).toarray()
+            except TypeError:
+                continue  # item without a field argument in matrix()
+            ok, rel = close_exact_twin(K_first, K_second, atol=1e-11 * (float(np.abs(K_second).max()) + 1e-300))
+            if not ok:
+                self.V("call-order", f"matrix of item {k} ({spec['type']}{', pressure= keyword' if kw else ''}) assembled before the vector differs from the one assembled after it (rel {rel:.2e})", site=f"{spec['type']}.matrix-first")
+            if kw:
+                # and it is the derivative of the vector assembled with the same keyword
+                n_ = K_second.shape[0]
+                dv = self.rng.normal(size=n_)
+                dv /= np.linalg.norm(dv)
+                h = 1e-6 * xs
+                xv = fk3.vector()
+
+                def Rk(xx):
+                    fk3.set_vector(xx[: fk3.vector().size])
+                    return item.assemble.vector(field=item.field, **kw).toarray().ravel()
+
+                pad = lambda a: np.concatenate([a, np.zeros(max(0, xv.size - a.size))])[: xv.size]
+                g = (Rk(xv + h * pad(dv)) - Rk(xv - h * pad(dv))) / (2 * h)
+                fk3.set_vector(xv)
+                Kd = item.assemble.matrix(field=item.field, **kw).toarray() @ dv
+                err = float(np.linalg.norm(Kd - g[: Kd.size]))
+                sc = float(np.linalg.norm(Kd) + np.linalg.norm(g)) + 1e-12
+                if err > 2e-6 * sc + 1e-9:
+                    self.V("fd-tangent", f"matrix(field, pressure=p) of item {k} is not the derivative of vector(field, pressure=p) (err {err:.3e}, scale {sc:.3e})", site="SolidBodyPressure.keyword")
+            self.log.count("call-order-checked")
         # parallel knob -----------------------------------------------------------------------------
         if self.doc["c01"].get("parallel") and self.nprobe % 2 == 0:
             p = self.doc["c01"]["pool"]
